@@ -2,6 +2,7 @@ CONSTANTS
  Mode = "gen"
  HistLen = 12
  LenientRelabel = FALSE
+ NeedGraph = FALSE
  RestartSets = {{3}, {2, 7}, {5, 9}, {4}, {6, 10}, {1, 8}}
 INIT RInit
 NEXT RNext
